@@ -7,6 +7,8 @@ package session
 import (
 	"net"
 
+	"tunnox-core/internal/core/types"
+
 	"tunnox-core/internal/packet"
 	"tunnox-core/internal/stream"
 )
@@ -28,4 +30,10 @@ func VerifBridge(s *SessionManager, id string) *TunnelBridge {
 	s.bridgeLock.RLock()
 	defer s.bridgeLock.RUnlock()
 	return s.tunnelBridges[id]
+}
+
+// VerifHandleExistingBridge calls the real handleExistingBridge (a connection joins a tunnel whose bridge already exists on this
+// node: target attach / source re-attach), including its TunnelOpenAck.
+func VerifHandleExistingBridge(s *SessionManager, connPacket *types.StreamPacket, conn *types.Connection, req *packet.TunnelOpenRequest, bridge *TunnelBridge) error {
+	return s.handleExistingBridge(connPacket, conn, req, bridge)
 }
